@@ -43,7 +43,8 @@ func init() {
 		// setUpLogInfo hands them to the validation options unchanged.
 		{"ValidateLogConfig.windowRefused", condKernel("trillian/ctfe/config.go", "ValidateLogConfig", []string{"NotAfterLimit", "NotAfterStart", "Before"}, "validateLogConfigWindowRefused", "(start limit : Option Int)",
 			// the stored pointers are non-nil exactly when the proto fields are (windowVerbatim checks where they are set)
-			Spec{Repl: map[string]string{"start != nil": "start.isSome", "limit != nil": "limit.isSome",
+			Spec{Canon: true, Repl: map[string]string{"start != nil": "start.isSome", "limit != nil": "limit.isSome",
+				"cfg.NotAfterStart != nil": "start.isSome", "cfg.NotAfterLimit != nil": "limit.isSome",
 				"vCfg.NotAfterStart != nil": "start.isSome", "vCfg.NotAfterLimit != nil": "limit.isSome",
 				"(*vCfg.NotAfterLimit)": "(limit.getD 0)", "*vCfg.NotAfterStart": "(start.getD 0)", "vCfg.NotAfterLimit": "(limit.getD 0)"}})},
 		{"ValidateLogConfig.windowVerbatim", windowVerbatimShape()},
